@@ -25,7 +25,11 @@ def build_cases(tier, seed):
         if i % 6 == 5:
             prof["network"] = "grid"
         ctrl = BUILTIN if i % 2 == 0 else hostile_stack(p=0.2, builtin=True, kinds=["Idle", "DispatchStation", "ChargeStation", "ChargeBase", "ReserveBase", "DispatchBase", "DispatchTrip", "Reposition"])
-        cases.append(trace_case("C05", i, s, prof, ctrl, steps, ["C05"], opts=({"cosim_ops": {"every": 9, "kinds": ["scale_rate", "append_plugs"]}} if i % 4 == 3 else {})))
+        c = trace_case("C05", i, s, prof, ctrl, steps, ["C05"], opts=({"cosim_ops": {"every": 9, "kinds": ["scale_rate", "append_plugs"]}} if i % 4 == 3 else {}))
+        if i % 4 == 1:
+            # an operator who logs only some kinds of records (log_sim_config): what is logged must not change what is booked
+            c["global_overrides"] = {"log_sim_config": [["vehicle_charge_event", "station_load_event"], ["instruction", "vehicle_state", "dropoff_request_event"], []][(i // 4) % 3]}
+        cases.append(c)
     # one busy plug, many nearly empty vehicles with small batteries: sessions run to a full battery while others wait for the
     # same plug (hand-overs), under a tariff that changes during the run
     from hivemon.checks.c18 import queue_spec
